@@ -58,6 +58,7 @@ type c14Decor struct {
 	rename   func(sym string) string // must keep runtime.sigpanic / non-sigpanic status
 	gpExtra  string
 	trailer  []string
+	pcInPath uint64 // if non-zero, file paths contain " pc=0x<this> " (set by the test: a value that relocates into the text segment)
 }
 
 func c14Render(r *c14Report, d *c14Decor) string {
@@ -281,7 +282,13 @@ func c14GenDecor(t *rapid.T, label string) *c14Decor {
 		return fmt.Sprintf("(0x%x?)", i)
 	}
 	root := rapid.SampledFrom([]string{"/home/alice/secret-project", "/usr/lib/go/src", "C:/Users/bob/go/src", "/tmp/" + label, "/home/alice/pc=0x10/src"}).Draw(t, label+"root")
-	d.file = func(i int) string { return fmt.Sprintf("%s/pkg%d/file%d.go", root, i%3, i) }
+	d.file = func(i int) string {
+		if d.pcInPath != 0 {
+			// a directory whose name reads like a field of the location line
+			return fmt.Sprintf("%s/my pc=0x%x notes/pkg%d/file%d.go", root, d.pcInPath, i%3, i)
+		}
+		return fmt.Sprintf("%s/pkg%d/file%d.go", root, i%3, i)
+	}
 	ren := rapid.Bool().Draw(t, label+"rename")
 	d.rename = func(s string) string {
 		if !ren || s == "runtime.sigpanic" {
@@ -331,6 +338,13 @@ func TestVerifC14Structured(t *testing.T) {
 	rapid.Check(t, func(t *rapid.T) {
 		r := c14GenReport(t, real)
 		d1, d2 := c14GenDecor(t, "A"), c14GenDecor(t, "B")
+		if rapid.IntRange(0, 5).Draw(t, "pcLikePath") == 0 {
+			// both renderings carry a path element " pc=0x... " whose number, relocated like a real pc, falls into
+			// this executable's text; the two numbers differ, the name must not
+			d1.pcInPath = real[rapid.IntRange(0, len(real)-1).Draw(t, "pathPC1")] - sentinel() + r.parentSent
+			d2.pcInPath = real[rapid.IntRange(0, len(real)-1).Draw(t, "pathPC2")] - sentinel() + r.parentSent + 1
+			vstats.Label("pcLikePathElement")
+		}
 		text1, text2 := c14Render(r, d1), c14Render(r, d2)
 		n1, e1 := c14Name(t, text1)
 		n2, e2 := c14Name(t, text2)
